@@ -2,7 +2,7 @@
 Independent numpy reading of props/C01_spec.v: truncated power series in r whose coefficients are functions of the helical angle
 sampled on 16 points (exact for the trigonometric polynomials that occur), one series per toroidal grid point.
 Only public attributes enter (axis frame data, shape coefficients, iota, G0, G2, I2, B0, etabar, B20, B2c, B2s, beta_1s);
-toroidal derivatives of the shape coefficients are recomputed here with the object's d_d_varphi.  Attributes of an order higher than
+toroidal derivatives of the shape coefficients are recomputed here by an FFT derivative, independently of the object's matrices.  Attributes of an order higher than
 the object's are replaced by RANDOM numbers (an order-rN claim must not depend on them)."""
 import sys, os, json, time, argparse
 sys.path.insert(0, os.path.dirname(os.path.abspath(__file__)))
@@ -95,8 +95,12 @@ def cross(u, v): return (u[1] * v[2] - u[2] * v[1], u[2] * v[0] - u[0] * v[2], u
 def residuals(q, rng):
     n = q.nphi
     z = np.zeros(n)
-    D = q.d_d_varphi
-    d = lambda f: np.matmul(D, np.asarray(f, dtype=float) + z)
+    # d/dvarphi of a grid profile, INDEPENDENTLY of the object's matrices: FFT derivative of the trigonometric interpolant in phi
+    # (period 2 pi / nfp, odd n), divided by the attribute d_varphi_d_phi
+    kk = np.fft.fftfreq(n, 1.0 / n) * q.nfp
+    def d(f):
+        F = np.fft.fft(np.asarray(f, dtype=float) + z)
+        return np.fft.ifft(1j * kk * F).real / q.d_varphi_d_phi
     rv = lambda: rng.standard_normal(n)
     o2 = q.order in ('r2', 'r3'); o3 = q.order == 'r3'
     a1 = max(np.max(np.abs(q.X1c)), np.max(np.abs(q.Y1s)))
